@@ -27,10 +27,10 @@ pattern of admissible traces given by models/evalorder.py.
             its own, which names the finding.
  stream     per-element lambdas of the streaming functions over all lists
             <= 3 over {1, 2, 3}, two operators chained, under consumers that
-            stop early (take, first, a zip partner that ends first, a
-            membership test; takeWhile / any / all / indexWhere as stages).
-            The same over sources that compute their elements on demand and
-            whose own lambdas are probes: generate (predicate, producer,
+            stop early (take, first; takeWhile / any / all / indexWhere as
+            stages).  The same, and also under a zip partner that ends first
+            and a membership test, over sources that compute their elements
+            on demand and whose own lambdas are probes: generate (predicate, producer,
             selector, eager initial value; the predicate admitting 0..4
             elements; decycle over a cycle), generateMany (chain and tree,
             breadth / depth first, selector), range, and the endless
@@ -83,7 +83,7 @@ BOUNDS = {
     'thorough': 'defs: kind corpus of 8 kinds (<= 2 eager positions, 6 kinds for 3, 4 for 4, 2 beyond); lazy: depth 1 as quick, depth 2 with the full truth alphabet and, for each of the 8 error classes, '
                 'with {true, null, failing operand} with exactly one failing operand in every position, and both slots of the two-slot constructs nested with alphabet {true, null, 0}; '
                 'stream: lists <= 3 over {1,2,3} and generated sources (generate admitting 0..4 elements, the others as quick), up to 2 chained operators (also memorize / defaultIfEmpty), consumers as quick, '
-                'on 4 engine profiles {limits+quota, no options, quota only, limit only}; binders: fixed list',
+                'on 4 engine profiles {limits+quota, no options, quota only, limit only} (generated sources: the first 2); binders: fixed list',
 }
 
 OPTIONS = {'yaql.limitIterators': 500, 'yaql.memoryQuota': 5000000}
@@ -574,6 +574,7 @@ CONSUMERS = [
     ('in', lambda src: ('bin', 'in', ('lit', 2), src)),
 ]
 LIST_CONSUMERS = 5      # streams over list literals are consumed by the first five only
+GENERATED = ('generate', 'generateMany', 'range', 'sequence')
 
 
 def generated_sources(tier):
@@ -862,8 +863,17 @@ def job_model(part, tier, k, K):
     for i, (label, ast) in enumerate(cases):
         if i % K != k:
             continue
-        for profile in (('limits',) if part != 'stream' else ('limits', 'no-options') if tier == 'quick' else sorted(PROFILES)):
+        generated = part == 'stream' and label.split('.')[0] in GENERATED
+        if part != 'stream':
+            profiles = ('limits',)
+        elif tier == 'quick' or generated:
+            profiles = ('limits', 'no-options')     # every wrapper on / every wrapper off
+        else:
+            profiles = sorted(PROFILES)
+        for profile in profiles:
             judge_model(res, part, label, ast, profile)
+        if generated:
+            res.extra['stream_cases_over_generated_sources'] = res.extra.get('stream_cases_over_generated_sources', 0) + 1
         if res.states % 1500 == 1:
             res.sample({'text': I.text(ast), 'pattern': repr(M.trace(ast)[0])}, limit=2)
     return res
